@@ -8,3 +8,4 @@ open GoSQLXModel
 #print axioms Props.C11.cancel_reported
 #print axioms Props.C11.flatten_without_catch_all_counterexample
 #print axioms Props.C11.never_fires_transparent
+#print axioms Props.C11.gen_entry_polls_first
